@@ -21,6 +21,8 @@ def stream_lines():
         "FCAtrunc": "1;255;4;0;0;" + cfg_ok[:-2],
         "FCAodd": "1;255;4;0;0;" + cfg_ok[:-1],
         "FCAnonhex": "1;255;4;0;0;zz" + cfg_ok[2:],
+        "FCAnonascii": "1;255;4;0;0;\ufffd\ufffd" + cfg_ok[2:],  # what the line reader makes of a corrupted byte
+        "FRAnonascii": "1;255;4;0;2;\u0663\u0663" + words_to_hex(1, 1, 0)[2:],
         "FCAempty": "1;255;4;0;0;",
         "FRAtrunc": "1;255;4;0;2;0100",
         "FRAodd": "1;255;4;0;2;" + words_to_hex(1, 1, 0)[:-1],
@@ -34,7 +36,7 @@ def stream_lines():
     return out
 
 
-QUICK = ["FCA", "FCB", "FCU", "FRA0", "FRA7", "FRA16", "FRA12", "FRA77", "FRB0", "FCAtrunc", "FCAnonhex", "FRAodd", "FRAempty", "FRAlong", "FCAlong", "FX"]
+QUICK = ["FCA", "FCB", "FCU", "FRA0", "FRA7", "FRA16", "FRA12", "FRA77", "FRB0", "FCAtrunc", "FCAnonhex", "FRAnonascii", "FRAodd", "FRAempty", "FRAlong", "FCAlong", "FX"]
 ALL = list(stream_lines())
 
 
